@@ -33,7 +33,7 @@
     ensures
         low <= element_count && high <= element_count,
     decreases queue_weight(queue@)
-@before "if start > end"
+@before "if start"
     proof { lemma_weight_front(old_q); assert(old_q.drop_first() == queue@); assert(old_q.first() == (start, end)); }
 @before "continue" nth=0
     proof { lemma_weight_nonneg(queue@); }
